@@ -1,0 +1,94 @@
+//go:build verif
+
+// Contracts for the gocv verifier (comment-only file; see /verif/DESIGN.md §4).
+// netip values are modelled abstractly, see /verif/spec/netip.gspec:
+//   Addr = (valid, is4, v)   Prefix = (addr, bits)   pin(p, x): prefix p covers 128-bit address x.
+package netlist
+
+//@ import netip "net/netip"
+//@ import sort "sort"
+
+// element is a valid, masked IPv6 prefix
+//@ spec func el6(p netip.Prefix) bool = wf_Prefix(p) && wf_Addr(p.addr) && p.bits >= 0 && p.addr.valid && !p.addr.is4 && p.addr.v == pfirst(p.addr.v, p.bits)
+// every element of the list is such a prefix
+//@ spec func rep6(l *List) bool = forall k int :: 0 <= k && k < len(l.e) ==> el6(l.e[k])
+// representation invariant of a sorted list: disjoint blocks in increasing order
+//@ spec func repSorted(l *List) bool = rep6(l) && (forall a int, b int :: 0 <= a && a < b && b < len(l.e) ==> plast(l.e[a].addr.v, l.e[a].bits) < l.e[b].addr.v)
+// the set of 128-bit addresses the list covers
+//@ spec func covers(l *List, x int) bool = exists k int :: 0 <= k && k < len(l.e) && pin(l.e[k], x)
+
+//@ func to6 [C13]
+//@   ensures addr.valid ==> result.valid && !result.is4 && result.v == addr.v
+//@   ensures !addr.valid ==> result.valid && !result.is4 && result.v == 0
+
+//@ func mustValid [C13]
+//@   panics when exists i int :: 0 <= i && i < len(l) && l[i].bits < 0
+//@   ensures forall i int :: 0 <= i && i < len(l) ==> l[i].bits >= 0
+//@   loop 0:
+//@     invariant forall k int :: 0 <= k && k < it0 ==> l[k].bits >= 0
+
+// Append normalises each new prefix to a masked IPv6 prefix covering exactly the
+// same addresses (IPv4 addresses being their v4-mapped form) and appends them.
+//@ func (list *List) Append [C13]
+//@   requires list != nil
+//@   requires forall i int :: 0 <= i && i < len(newNet) ==> newNet[i].bits >= 0
+//@   requires len(newNet) > 0 ==> newNet.ref != list.e.ref
+//@   modifies list.e, list.sorted, elems(newNet), elems(list.e)
+//@   ensures !list.sorted
+//@   ensures len(list.e) == old(len(list.e)) + len(newNet)
+//@   ensures forall k int :: 0 <= k && k < old(len(list.e)) ==> list.e[k] == old(list.e[k])
+//@   ensures forall i int :: 0 <= i && i < len(newNet) ==> el6(list.e[old(len(list.e)) + i]) && list.e[old(len(list.e)) + i].addr.v == pfirst(old(newNet[i].addr.v), old(eb(newNet[i]))) && list.e[old(len(list.e)) + i].bits == old(eb(newNet[i]))
+//@   loop 0:
+//@     invariant forall k int :: 0 <= k && k < it0 ==> el6(newNet[k]) && newNet[k].addr.v == pfirst(old(newNet[k].addr.v), old(eb(newNet[k]))) && newNet[k].bits == old(eb(newNet[k]))
+//@     invariant forall k int :: it0 <= k && k < len(newNet) ==> newNet[k] == old(newNet[k])
+//@     invariant forall k int :: 0 <= k && k < len(list.e) ==> list.e[k] == old(list.e[k])
+
+//@ func (list *List) Len [C13]
+//@   requires list != nil
+//@   ensures result == len(list.e)
+
+//@ func (list *List) Less [C13]
+//@   requires list != nil && 0 <= i && i < len(list.e) && 0 <= j && j < len(list.e)
+//@   ensures el6(list.e[i]) && el6(list.e[j]) ==> result == (list.e[i].addr.v < list.e[j].addr.v)
+
+//@ func (list *List) Swap [C13]
+//@   requires list != nil && 0 <= i && i < len(list.e) && 0 <= j && j < len(list.e)
+//@   modifies list.e[i], list.e[j]
+//@   ensures list.e[i] == old(list.e[j]) && list.e[j] == old(list.e[i])
+
+// Sort: afterwards the representation invariant holds and the covered set is unchanged.
+//@ func (list *List) Sort [C13]
+//@   requires list != nil && rep6(list)
+//@   modifies list.e, list.sorted, elems(list.e)
+//@   ensures list.sorted
+//@   ensures !old(list.sorted) ==> repSorted(list)
+//@   ensures !old(list.sorted) ==> forall k int :: 0 <= k && k < len(list.e) ==> exists j int :: 0 <= j && j < old(len(list.e)) && list.e[k] == old(list.e[j])
+//@   ensures !old(list.sorted) ==> forall j int :: 0 <= j && j < old(len(list.e)) ==> exists k int :: 0 <= k && k < len(list.e) && list.e[k].addr.v <= old(list.e[j].addr.v) && old(plast(list.e[j].addr.v, list.e[j].bits)) <= plast(list.e[k].addr.v, list.e[k].bits)
+//@   ensures old(list.sorted) ==> len(list.e) == old(len(list.e)) && list.e.ref == old(list.e.ref) && list.e.off == old(list.e.off)
+//@   loop 0:
+//@     invariant fresh(out.ref) && 0 <= len(out) && len(out) <= it0 && (it0 > 0 ==> len(out) > 0)
+//@     invariant list.e == aftercall(sortSort, 0, list.e) && (list.e.ref == 0 || wasallocated(list.e.ref))
+//@     invariant forall k int :: 0 <= k && k < len(list.e) ==> list.e[k] == aftercall(sortSort, 0, list.e[k])
+//@     invariant forall k int :: 0 <= k && k < len(out) ==> el6(out[k])
+//@     invariant forall a int, b int :: 0 <= a && a < b && b < len(out) ==> plast(out[a].addr.v, out[a].bits) < out[b].addr.v
+//@     invariant forall k int :: 0 <= k && k < len(out) ==> exists j int :: 0 <= j && j < it0 && out[k] == list.e[j]
+//@     invariant forall j int :: 0 <= j && j < it0 ==> exists k int :: 0 <= k && k < len(out) && out[k].addr.v <= list.e[j].addr.v && plast(list.e[j].addr.v, list.e[j].bits) <= plast(out[k].addr.v, out[k].bits)
+//@     invariant it0 > 0 ==> out[len(out)-1].addr.v <= list.e[it0-1].addr.v
+
+// Contains: binary search for the last block starting at or before the address.
+//@ func (list *List) Contains [C13]
+//@   requires list != nil
+//@   requires list.sorted ==> repSorted(list)
+//@   panics when !list.sorted
+//@   ensures result == (addr.valid && covers(list, addr.v))
+//@   loop 0:
+//@     invariant 0 <= i && i <= j && j <= len(list.e) && addr.valid && !addr.is4
+//@     invariant forall k int :: 0 <= k && k < i ==> list.e[k].addr.v <= addr.v
+//@     invariant forall k int :: j <= k && k < len(list.e) ==> list.e[k].addr.v > addr.v
+//@     decreases j - i
+
+//@ func (list *List) Match [C13]
+//@   requires list != nil
+//@   requires list.sorted ==> repSorted(list)
+//@   panics when !list.sorted
+//@   ensures result == (addr.valid && covers(list, addr.v))
